@@ -350,6 +350,25 @@ func ops() []op {
 			return err
 		}})
 	}
+	// the hash of a bundle read through a handle: the position the handle happens to be at is not part of the input
+	type positioned struct {
+		data []byte
+		pos  int64
+	}
+	out = append(out, op{"ComputeWebBundleSha512/handle position varies", func(o *mon.Rand) any {
+		data := bytes.Repeat([]byte("bundle bytes "), 300)
+		return positioned{data, int64(o.Intn(len(data) + 1))}
+	}, func(in any, w io.Writer) error {
+		p := in.(positioned)
+		rd := bytes.NewReader(p.data)
+		rd.Seek(p.pos, io.SeekStart)
+		h, err := integrityblock.ComputeWebBundleSha512(rd, 0)
+		if err != nil {
+			return err
+		}
+		_, err = w.Write(h)
+		return err
+	}})
 	out = append(out, op{"CertChain.Write", func(o *mon.Rand) any { return idA.Chain }, func(in any, w io.Writer) error { return in.(certurl.CertChain).Write(w) }})
 	for _, n := range []int{2, 70} {
 		n := n
